@@ -214,7 +214,9 @@ def lookahead_wrappers():
 def lazy_wrappers():
     "Lazy skips its member by the size Construct._actualsize reports (Prefixed and PrefixedArray read their prefix for it)"
     return [lambda x: A.N("Lazy", sub=x), lambda x: A.N("Lazy", sub=A.Prefixed(A.Alias("Byte"), x)), lambda x: A.N("Lazy", sub=A.Prefixed(A.Alias("Int16ub"), x, incl=True)),
-            lambda x: A.N("Lazy", sub=A.PrefixedArray(A.Alias("Byte"), x)), lambda x: A.N("Lazy", sub=A.Renamed("m", A.Prefixed(A.Alias("Byte"), x)))]
+            lambda x: A.N("Lazy", sub=A.PrefixedArray(A.Alias("Byte"), x)), lambda x: A.N("Lazy", sub=A.Renamed("m", A.Prefixed(A.Alias("Byte"), x))),
+            lambda x: A.N("LazyArray", count=A.C(2), sub=x), lambda x: A.N("LazyArray", count=A.T("_params", "k"), sub=A.Prefixed(A.Alias("Byte"), x)),
+            lambda x: A.N("LazyStruct", subs=[A.Renamed("a", x), A.Renamed("b", A.Prefixed(A.Alias("Byte"), A.GreedyBytes)), A.Renamed("c", A.Alias("Byte"))])]
 
 def systematic(rng, frac=1.0, extra=()):
     """Struct(h: Bytes(hlen), x: W(L), t: Byte) for every wrapper W, leaf L and header length -- so that every class is met
